@@ -171,6 +171,13 @@ func init() {
 				fixRepetitions(g, t, o.Alphabet)
 				g.number()
 			}
+			if o.RefTrims && rapid.Bool().Draw(t, "trimshare") {
+				trimShareTransform(t, g, o)
+				fixRepetitions(g, t, o.Alphabet)
+				fixLeftRecursion(g, t, o.Alphabet)
+				fixRepetitions(g, t, o.Alphabet)
+				g.number()
+			}
 			aliased := !shared && rapid.IntRange(0, 1).Draw(t, "alias") == 0
 			if aliased {
 				// a cached multi-result list consumed several times at one position by consecutive
